@@ -11,6 +11,8 @@
 //! `Heap`, `GuardR` and `GuardL` are exact-size allocations (so Miri checks
 //! both ends), `Arena(off)` is a 64-aligned allocation of `off + len` bytes.
 
+#[allow(unused_imports)]
+use crate::prelude::*;
 #[derive(Clone, Copy, Debug, PartialEq, Eq)]
 pub enum Place {
     Heap,
@@ -45,7 +47,7 @@ pub const PAGE: usize = 4096;
 pub const DATA_PAGES: usize = 24;
 pub const DATA_LEN: usize = PAGE * DATA_PAGES;
 
-#[cfg(not(miri))]
+#[cfg(all(not(miri), not(target_arch = "wasm32")))]
 mod sys {
     extern "C" {
         pub fn mmap(
@@ -68,8 +70,12 @@ mod sys {
 /// One arena. A slice handed out by `place` stays valid until the next call
 /// of `place` on the same arena.
 pub struct Arena {
-    #[cfg(not(miri))]
+    #[cfg(all(not(miri), not(target_arch = "wasm32")))]
     base: *mut u8,
+    /// wasm32: start of this arena's region of linear memory; the region of
+    /// the arena created last ends exactly at the end of linear memory
+    #[cfg(target_arch = "wasm32")]
+    base: usize,
     heap: Vec<u8>,
     #[cfg(miri)]
     aligned: Option<(*mut u8, std::alloc::Layout)>,
@@ -85,7 +91,23 @@ pub static mut NGUARDS: usize = 0;
 
 impl Arena {
     pub fn new(id: usize) -> Arena {
-        #[cfg(not(miri))]
+        #[cfg(target_arch = "wasm32")]
+        {
+            // DATA_LEN rounded up to whole 64 KiB wasm pages, taken from the
+            // top of linear memory. There are no guard pages in wasm; what
+            // traps is an access past the *end of linear memory*, so only the
+            // arena created last offers a "guard-right" placement. Runner::new
+            // creates the haystack arena last.
+            crate::allocmon::init();
+            let pages = (DATA_LEN + 65535) / 65536;
+            let prev = core::arch::wasm32::memory_grow(0, pages);
+            if prev == usize::MAX {
+                core::arch::wasm32::unreachable();
+            }
+            let base = prev * 65536 + pages * 65536 - DATA_LEN;
+            return Arena { base, heap: Vec::new(), id };
+        }
+        #[cfg(all(not(miri), not(target_arch = "wasm32")))]
         unsafe {
             let total = DATA_LEN + 2 * PAGE;
             let base = sys::mmap(
@@ -126,7 +148,24 @@ impl Arena {
         let len = bytes.len();
         let place =
             if len > Arena::capacity() { Place::Heap } else { place };
-        #[cfg(not(miri))]
+        #[cfg(target_arch = "wasm32")]
+        unsafe {
+            let data = self.base as *mut u8;
+            let p = match place {
+                Place::Heap => {
+                    self.heap = Vec::new();
+                    self.heap.reserve_exact(len);
+                    self.heap.extend_from_slice(bytes);
+                    return &self.heap[..];
+                }
+                Place::GuardR => data.add(DATA_LEN - len),
+                Place::GuardL => data,
+                Place::Arena(off) => data.add(1024 + (off as usize)),
+            };
+            core::ptr::copy_nonoverlapping(bytes.as_ptr(), p, len);
+            return core::slice::from_raw_parts(p, len);
+        }
+        #[cfg(all(not(miri), not(target_arch = "wasm32")))]
         unsafe {
             let data = self.base.add(PAGE);
             let p = match place {
